@@ -994,6 +994,7 @@ func (g *ReferencesAndLatLngs) UnmarshalWithoutLength(l int, primary TypeAndName
 	i := references.Unmarshal(buffer)
 	last := ReferenceAndLatLng{Reference: Reference{Value: 0}, LatLng: LatLng{LatE7: 0, LngE7: 0}}
 	for j := range *g {
+		(*g)[j] = ReferenceAndLatLng{} // The slice may be reused: drop what the element held before
 		if references[j] {
 			i += (*g)[j].Reference.Unmarshal(primary, buffer[i:])
 			if (*g)[j].Reference.TypeAndNamespace == primary {
@@ -1427,9 +1428,12 @@ func (a *AreaGeometryMixed) UnmarshalWithoutLength(l int, paths TypeAndNamespace
 	references := make(Bits, l)
 	i := references.Unmarshal(buffer)
 	for j := range a.Polygons {
+		// The slice may be reused: a polygon is either references or lat/lngs, never what it held before
 		if references[j] {
+			a.Polygons[j].LatLngs = PolygonGeometryLatLngs{}
 			i += a.Polygons[j].References.Unmarshal(paths, buffer[i:])
 		} else {
+			a.Polygons[j].References.Paths = a.Polygons[j].References.Paths[0:0]
 			i += a.Polygons[j].LatLngs.Unmarshal(buffer[i:])
 		}
 	}
